@@ -1,272 +1,233 @@
-"""C20 - context-free transaction check.  Structural obligations (DESIGN.md section 4, C20)."""
+"""C20 - context-free transaction check.  Structural obligations (DESIGN.md section 4, C20).
+All guard rules work on the canonical symbolic store (sa/sym.py): locals are substituted away, so renaming,
+temporaries, De Morgan rewrites, early returns and named constants do not change what is computed here."""
 from __future__ import annotations
 
 import ast
 
 from sa.core import Ob
 from sa.pm import AnalysisError, norm, body_nodes
-from sa import gi, df
-from sa.gi import IntSet, iv, GuardWalker, SymbolicAtomizer, reach_sets
-from sa.ru import is_raise_of, const_resolver as _const_resolver, subject as _subject, enclosing_test as _enclosing_test
+from sa import gi, df, ru, sym
+from sa.gi import IntSet, iv
 
 TX = "pycoin/coins/bitcoin/Tx.py"
 TXIN = "pycoin/coins/bitcoin/TxIn.py"
 VFE = "ValidationFailureError"
 U, E = IntSet.all(), IntSet.empty()
-_is_raise_vfe = is_raise_of(VFE)
+_is_raise_vfe = ru.is_raise_of(VFE)
+
+
+def _sat(f):
+    """satisfiable for some assignment of the opaque atoms and some subject value"""
+    import itertools
+    if f in (True, False):
+        return f
+    ops = gi.f_opaques(f)
+    return any(not gi.f_eval(f, dict(zip(ops, bits)), U, E).is_empty() for bits in itertools.product((False, True), repeat=len(ops)))
+
+
+def _loops_over(w, fi, iter_text):
+    out = []
+    for n in ast.walk(fi.node):
+        if isinstance(n, ast.For) and w.canon.text(n.iter) == iter_text and isinstance(n.target, ast.Name):
+            out.append(n)
+        elif isinstance(n, ast.For) and isinstance(n.iter, ast.Name) and isinstance(n.target, ast.Name):
+            d = df.single_defs(fi.node).get(n.iter.id)
+            if d is not None and norm(d) == iter_text:
+                out.append(n)
+    return out
 
 
 # ------------------------------------------------------------------ C20.1
 def c20_1(ctx):
-    # (a) per-output value range
     f = ctx.func(TX, "Tx._check_txs_out")
-    loops = [n for n in body_nodes(f.node) if isinstance(n, ast.For)]
-    if len(loops) != 1 or norm(loops[0].iter) != "self.txs_out" or not isinstance(loops[0].target, ast.Name):
+    w0 = sym.walk(ctx, f)
+    loops = _loops_over(w0, f, "self.txs_out")
+    if len(loops) != 1:
         raise AnalysisError("%s: expected one loop over self.txs_out" % f.where)
-    v = loops[0].target.id
-    const = _const_resolver(ctx, f, {"self.MAX_MONEY"})
-    subj = "%s.coin_value" % v
-    w = GuardWalker(SymbolicAtomizer(_subject({subj}), const))
-    exits = w.run(loops[0].body)
-    may, must = reach_sets(exits, _is_raise_vfe, U, E)
+    lv = loops[0].target.id
+    subj = "%s.coin_value" % lv
+    w = sym.int_walk(ctx, f, {subj}, {"self.MAX_MONEY"})
+    must, n = sym.guard_reject_set(w, f.node, _is_raise_vfe, U, E, pure=True)
     want = iv(0, ("s", 0)).complement()
     ctx.check(must == want, "value-range", ctx.where(f),
-              "Tx._check_txs_out: outputs rejected for certain by the value guard are %s; the property requires exactly %s "
-              "(MAX = self.MAX_MONEY, the per-coin limit)" % (must.fmt("MAX"), want.fmt("MAX")),
-              sample={"function": f.qualname, "subject": subj, "must_raise": must.fmt("MAX"), "expected": want.fmt("MAX")})
-    # (b) running total: accumulated before the comparison, compared with the same per-coin limit
-    accs = [n for n in body_nodes(loops[0]) if isinstance(n, ast.AugAssign) and isinstance(n.op, ast.Add)
-            and norm(n.value) == subj and isinstance(n.target, ast.Name)]
+              "Tx._check_txs_out: outputs rejected by the value guard are %s; the property requires exactly %s (MAX = self.MAX_MONEY, the per-coin limit)" % (must.fmt("MAX"), want.fmt("MAX")),
+              sample={"function": f.qualname, "subject": subj, "rejected": must.fmt("MAX"), "expected": want.fmt("MAX")})
+    accs = [e for e in w.effects if e.kind == "aug" and isinstance(e.op, ast.Add) and norm(e.value) == subj and e.loops and e.loops[-1].node is loops[0]]
     if len(accs) != 1:
-        ctx.bad("running-total", ctx.where(f), "Tx._check_txs_out: no single `total += %s` accumulation inside the loop" % subj)
+        ctx.bad("running-total", ctx.where(f), "Tx._check_txs_out: no single accumulation `total += %s` inside the loop over the outputs" % subj)
         return
-    tot = accs[0].target.id
-    inits = [d for d in df.assignments(f.node).get(tot, []) if isinstance(d[0], ast.AST)]
-    ctx.check(len(inits) == 1 and df.const_int(inits[0][0]) == 0 and inits[0][1] not in list(body_nodes(loops[0])),
-              "running-total-init", ctx.where(f), "Tx._check_txs_out: running total %s is not initialised to 0 once before the loop" % tot)
-    w2 = GuardWalker(SymbolicAtomizer(_subject({tot}), const))
-    ex2 = w2.run(loops[0].body)
-    may2, must2 = reach_sets(ex2, lambda e: _is_raise_vfe(e) and gi.involves_subject(e.cond), U, E)
+    acc = norm(accs[0].target)
+    inits = [st for st in body_nodes(f.node) if isinstance(st, (ast.Assign, ast.AnnAssign)) and norm(st.targets[0] if isinstance(st, ast.Assign) else st.target) == acc]
+    ok = len(inits) == 1 and df.const_int(inits[0].value) == 0 and not any(x is inits[0] for x in ast.walk(loops[0]))
+    ctx.check(ok, "running-total-init", ctx.where(f), "Tx._check_txs_out: the running total is not initialised to 0 once before the loop")
+    tot = "%s + %s" % (acc, subj)
+    w2 = sym.int_walk(ctx, f, {tot}, {"self.MAX_MONEY"})
+    s2, n2 = sym.guard_reject_set(w2, f.node, _is_raise_vfe, U, E)
     want2 = iv(("s", 1), None)
-    ctx.check(may2 == want2, "running-total-range", ctx.where(f),
-              "Tx._check_txs_out: running total rejected on %s; property requires exactly %s (total > MAX_MONEY of the coin)"
-              % (may2.fmt("MAX"), want2.fmt("MAX")),
-              sample={"subject": tot, "may_raise": may2.fmt("MAX"), "expected": want2.fmt("MAX")})
-    # the comparison of the total must come after the accumulation in every iteration
-    raises_tot = [e for e in ex2 if _is_raise_vfe(e) and tot in df.names_in(_enclosing_test(loops[0], e.node) or ast.Constant(0))]
-    order_ok = bool(raises_tot) and all(e.node.lineno > accs[0].lineno for e in raises_tot)
-    from sa.cfg import stmt_paths, struct_dominates
-    paths = stmt_paths(f.node)
-    ifs = [n for n in body_nodes(loops[0]) if isinstance(n, ast.If) and tot in df.names_in(n.test)]
-    order_ok = bool(ifs) and all(struct_dominates(paths, accs[0], i) for i in ifs)
-    ctx.check(order_ok, "running-total-order", ctx.where(f, accs[0]),
-              "Tx._check_txs_out: the total is compared before the current output has been added (a total crossing MAX_MONEY on the last output is accepted)")
-    # (c) the per-coin limits
+    ctx.check(s2 == want2, "running-total-range", ctx.where(f),
+              "Tx._check_txs_out: the total INCLUDING the current output is rejected on %s; the property requires exactly %s (a total that crosses MAX_MONEY only with the last output must be caught; the per-coin limit must be used)"
+              % (s2.fmt("MAX"), want2.fmt("MAX")), sample={"subject": "running total after adding the current output", "rejected": s2.fmt("MAX"), "expected": want2.fmt("MAX")})
     it = ctx.interp
     for rel, cls, want_v in ((TX, "Tx", 21000000 * 10 ** 8), ("pycoin/coins/groestlcoin/Tx.py", "Tx", 105000000 * 10 ** 8)):
         m = ctx.p.module(rel)
-        cv = it.get(m.name, cls)
-        val = it.getattr(cv, "MAX_MONEY")
-        ctx.check(val == want_v, "MAX_MONEY:%s" % m.name, "%s:1" % rel,
-                  "%s.%s.MAX_MONEY evaluates to %r, expected %d" % (m.name, cls, val, want_v),
-                  sample={"class": "%s.%s" % (m.name, cls), "MAX_MONEY": val})
-    # (d) coinbase script length
+        val = it.getattr(it.get(m.name, cls), "MAX_MONEY")
+        ctx.check(val == want_v, "MAX_MONEY:%s" % m.name, "%s:1" % rel, "%s.%s.MAX_MONEY evaluates to %r, expected %d" % (m.name, cls, val, want_v), sample={"class": "%s.%s" % (m.name, cls), "MAX_MONEY": val})
+    # coinbase script length
     f = ctx.func(TX, "Tx._check_txs_in")
-    const = _const_resolver(ctx, f, set())
-    subj_t = {"len(self.txs_in[0].script)"}
-    w = GuardWalker(SymbolicAtomizer(_subject(subj_t, df.single_defs(f.node)), const))
-    exits = w.run(f.node.body)
-    may, must = reach_sets(exits, _is_raise_vfe, U, E)
-    # on the coinbase branch lengths outside [2,100] must raise; is_coinbase() is opaque, so use may
+    w = sym.int_walk(ctx, f, {"len(self.txs_in[0].script)"})
+    s, n = sym.guard_reject_set(w, f.node, _is_raise_vfe, U, E)
     want = iv(2, 100).complement()
-    cb_exits = [e for e in exits if _is_raise_vfe(e) and "script" in norm(_enclosing_test(f.node, e.node) or ast.Constant(0))]
-    s = E
-    for e in cb_exits:
-        s = s | gi.sat_set(e.cond, U, E)
-    ctx.check(s == want, "coinbase-script-length", ctx.where(f),
-              "Tx._check_txs_in: coinbase script lengths rejected are %s, property requires exactly %s" % (s.fmt(), want.fmt()),
-              sample={"subject": "len(self.txs_in[0].script)", "may_raise": s.fmt(), "expected": want.fmt()})
-    if cb_exits:
-        c = cb_exits[0].cond
-        ops = gi.f_opaques(c)
-        ctx.check(any("is_coinbase" in o for o in ops), "coinbase-script-branch", ctx.where(f),
-                  "Tx._check_txs_in: the script-length rule is not conditioned on is_coinbase()")
-    # (e) size limit
+    ctx.check(s == want, "coinbase-script-length", ctx.where(f), "Tx._check_txs_in: coinbase script lengths rejected are %s, property requires exactly %s" % (s.fmt(), want.fmt()),
+              sample={"subject": "len(self.txs_in[0].script)", "rejected": s.fmt(), "expected": want.fmt()})
+    cb = [e for e in w.exits if _is_raise_vfe(e) and gi.involves_subject(w.guards.get(id(sym.enclosing_if(f.node, e.node)), True))]
+    ok = bool(cb) and all(not _sat(gi.f_and(e.cond, ("not", ("op", "truthy(self.is_coinbase())")))) for e in cb)
+    ctx.check(ok, "coinbase-script-branch", ctx.where(f), "Tx._check_txs_in: the script-length rule is not restricted to coinbase transactions")
+    # size limit
     f = ctx.func(TX, "Tx._check_size_limit")
-    defs = df.single_defs(f.node)
-    const = _const_resolver(ctx, f, {"self.MAX_TX_SIZE"})
-    size_texts = {"len(self.as_bin())", "len(self.as_bin(include_witness_data=False))"}
-    w = GuardWalker(SymbolicAtomizer(_subject(size_texts, defs), const))
-    exits = w.run(f.node.body)
-    may, must = reach_sets(exits, _is_raise_vfe, U, E)
+    w = sym.int_walk(ctx, f, {"len(self.as_bin())", "len(self.as_bin(include_witness_data=False))"}, {"self.MAX_TX_SIZE"})
+    s, n = sym.guard_reject_set(w, f.node, _is_raise_vfe, U, E, pure=True)
     want = iv(("s", 1), None)
-    ctx.check(must == want, "size-limit", ctx.where(f),
-              "Tx._check_size_limit: sizes rejected are %s, property requires exactly %s" % (must.fmt("MAX_TX_SIZE"), want.fmt("MAX_TX_SIZE")),
-              sample={"subject": "len(self.as_bin())", "must_raise": must.fmt("MAX_TX_SIZE")})
+    ctx.check(s == want, "size-limit", ctx.where(f), "Tx._check_size_limit: sizes rejected are %s, property requires exactly %s" % (s.fmt("MAX_TX_SIZE"), want.fmt("MAX_TX_SIZE")), sample={"subject": "len(self.as_bin())", "rejected": s.fmt("MAX_TX_SIZE")})
     val = it.getattr(it.get(ctx.p.module(TX).name, "Tx"), "MAX_TX_SIZE")
     ctx.check(val == 1000000, "MAX_TX_SIZE", "%s:1" % TX, "Tx.MAX_TX_SIZE evaluates to %r, expected 1000000" % (val,))
-    # (f) empty input / output lists
+    # empty input / output lists
     f = ctx.func(TX, "Tx._check_tx_inout_count")
-    for attr, key in (("self.txs_out", "no-outputs"), ("self.txs_in", "no-inputs")):
-        w = GuardWalker(SymbolicAtomizer(_subject({attr, "len(%s)" % attr}), lambda e: df.const_int(e)))
-        exits = w.run(f.node.body)
-        may, must = reach_sets(exits, lambda e: _is_raise_vfe(e) and gi.involves_subject(e.cond), U, E)
-        want = iv(0, 0)
-        ok = (must == want) if attr == "self.txs_out" else (may == want)
-        ctx.check(ok, key, ctx.where(f),
-                  "Tx._check_tx_inout_count: len(%s) values rejected are may=%s must=%s; property requires exactly {0}" % (attr, may.fmt(), must.fmt()),
-                  sample={"subject": "len(%s)" % attr, "may_raise": may.fmt(), "must_raise": must.fmt()})
+    w = sym.int_walk(ctx, f, {"self.txs_out", "len(self.txs_out)"})
+    s, n = sym.guard_reject_set(w, f.node, _is_raise_vfe, U, E, pure=True)
+    ctx.check(s == iv(0, 0), "no-outputs", ctx.where(f), "Tx._check_tx_inout_count: a transaction is rejected unconditionally for len(txs_out) in %s; the property requires: no outputs => rejected, whatever else holds" % s.fmt(),
+              sample={"subject": "len(self.txs_out)", "rejected_unconditionally": s.fmt()})
+    w = sym.int_walk(ctx, f, {"self.txs_in", "len(self.txs_in)"})
+    s, n = sym.guard_reject_set(w, f.node, _is_raise_vfe, U, E)
+    ctx.check(s == iv(0, 0), "no-inputs", ctx.where(f), "Tx._check_tx_inout_count: len(txs_in) values rejected are %s; property requires exactly {0}" % s.fmt(), sample={"subject": "len(self.txs_in)", "rejected": s.fmt()})
 
 
 # ------------------------------------------------------------------ C20.2
 def c20_2(ctx):
     f = ctx.func(TX, "Tx._check_txs_in")
-    loops = [n for n in body_nodes(f.node) if isinstance(n, ast.For) and norm(n.iter) == "self.txs_in" and isinstance(n.target, ast.Name)]
+    w = sym.walk(ctx, f)
+    loops = _loops_over(w, f, "self.txs_in")
     if not loops:
         ctx.bad("dup-loop", ctx.where(f), "Tx._check_txs_in: no loop over self.txs_in that could detect a reused outpoint")
         return
     found = False
     for lp in loops:
         v = lp.target.id
-        defs = df.single_defs(f.node)
-        keys = []   # (container text, key expr, kind, node)
-        for n in body_nodes(lp):
-            if isinstance(n, ast.Compare) and len(n.ops) == 1 and isinstance(n.ops[0], (ast.In, ast.NotIn)):
-                keys.append((norm(n.comparators[0]), n.left, "test", n))
-            elif isinstance(n, ast.Call) and isinstance(n.func, ast.Attribute) and n.func.attr in ("add", "get", "setdefault", "append", "__contains__") and n.args:
-                keys.append((norm(n.func.value), n.args[0], n.func.attr, n))
-            elif isinstance(n, ast.Subscript) and isinstance(n.value, ast.Name):
-                keys.append((norm(n.value), n.slice, "subscript", n))
-        by_c = {}
-        for c, k, kind, node in keys:
-            by_c.setdefault(c, []).append((k, kind, node))
-        for c, ks in by_c.items():
-            kinds = {k[1] for k in ks}
-            if not ({"test", "get", "subscript", "__contains__"} & kinds) or not ({"add", "subscript", "append", "setdefault"} & kinds):
+        keys = {}   # container -> list of (key expr, kind, node)
+        for e in w.effects:
+            if not (e.loops and e.loops[-1].node is lp):
                 continue
-            if c == norm(lp.iter) or c.startswith("self."):
+            if e.kind == "call" and isinstance(e.call.func, ast.Attribute) and isinstance(e.call.func.value, ast.Name) and e.call.func.attr in ("add", "get", "setdefault", "append") and e.call.args:
+                keys.setdefault(e.call.func.value.id, []).append((e.call.args[0], e.call.func.attr, e.node))
+            elif e.kind in ("setitem", "delitem") and isinstance(e.target, ast.Name):
+                keys.setdefault(e.target.id, []).append((e.key, "subscript", e.node))
+        tests = {}
+        for n in ast.walk(lp):
+            if isinstance(n, ast.If):
+                t = w.tests.get(id(n))
+                for c in ast.walk(t) if t is not None else []:
+                    if isinstance(c, ast.Compare) and len(c.ops) == 1 and isinstance(c.ops[0], (ast.In, ast.NotIn)) and isinstance(c.comparators[0], ast.Name):
+                        tests.setdefault(c.comparators[0].id, []).append((c.left, "test", n))
+                    if isinstance(c, ast.Call) and isinstance(c.func, ast.Attribute) and c.func.attr == "get" and isinstance(c.func.value, ast.Name) and c.args:
+                        tests.setdefault(c.func.value.id, []).append((c.args[0], "get", n))
+        for c in set(keys) | set(tests):
+            ks = keys.get(c, []) + tests.get(c, [])
+            kinds = {k[1] for k in ks}
+            if not ({"test", "get"} & kinds) or not ({"add", "subscript", "append", "setdefault"} & kinds):
                 continue
             found = True
             for k, kind, node in ks:
-                fields = df.attrs_of(df.expand(k, defs), v)
+                fields = df.attrs_of(k, v)
                 ctx.check({"previous_hash", "previous_index"} <= fields, "dup-key:%s" % kind, ctx.where(f, node),
-                          "Tx._check_txs_in: duplicate detection uses key `%s` (%s of %s) which does not contain both "
-                          "previous_hash and previous_index: two inputs spending the same outpoint are not always recognised"
-                          % (norm(k), kind, c), what="dup-key:%s:%s" % (kind, norm(k)),
-                          sample={"container": c, "key": norm(df.expand(k, defs)), "use": kind})
-            # the membership test must lead to a raise, and insertion must not be conditional on anything but that
-            tests = [node for k, kind, node in ks if kind == "test"]
-            w = GuardWalker(lambda t: ("op", norm(t)))
-            ex = w.run(lp.body)
-            raised = [e for e in ex if _is_raise_vfe(e) and any(norm(t) in gi.f_opaques(e.cond) for t in tests)]
+                          "Tx._check_txs_in: duplicate detection uses key `%s` (%s of %s) which does not contain both previous_hash and previous_index: two inputs spending the same outpoint are not always recognised"
+                          % (norm(k), kind, c), what="dup-key:%s:%s" % (kind, norm(k)), sample={"container": c, "key": norm(k), "use": kind})
+            raised = [e for e in w.exits if _is_raise_vfe(e) and e.node is not None and any(x is e.node for x in ast.walk(lp)) and any((" in %s" % c) in o for o in gi.f_opaques(e.cond))]
             ctx.check(bool(raised), "dup-raises", ctx.where(f, lp), "Tx._check_txs_in: membership in %s does not raise ValidationFailureError" % c)
-            adds = [(st, r) for st, r in w.visits if any(isinstance(x, ast.Call) and isinstance(x.func, ast.Attribute) and x.func.attr == "add"
-                                                          and norm(x.func.value) == c for x in ast.walk(st))]
-            for st, r in adds:
-                ops = set(gi.f_opaques(r)) if r not in (True, False) else set()
-                allowed = {norm(t) for t in tests} | {o for o in ops if "is_coinbase" in o or "previous_hash" in o}
-                ctx.check(ops <= allowed, "dup-insert-unconditional", ctx.where(f, st),
-                          "Tx._check_txs_in: insertion into %s is conditional on %s; some outpoints are never recorded" % (c, sorted(ops - allowed)))
+            for e in w.effects:
+                if e.kind == "call" and isinstance(e.call.func, ast.Attribute) and norm(e.call.func.value) == c and e.call.func.attr == "add":
+                    ops = set(gi.f_opaques(e.reach)) if e.reach not in (True, False) else set()
+                    ops -= set(gi.f_opaques(e.loops[-1].reach)) if e.loops and e.loops[-1].reach not in (True, False) else set()
+                    allowed = {o for o in ops if (" in %s" % c) in o or "is_coinbase" in o or "previous_hash" in o}
+                    ctx.check(ops <= allowed, "dup-insert-unconditional", ctx.where(f, e.node), "Tx._check_txs_in: insertion into %s is conditional on %s; some outpoints are never recorded" % (c, sorted(ops - allowed)))
     if not found:
         ctx.bad("dup-structure", ctx.where(f), "Tx._check_txs_in: no container is both tested and filled with the outpoint of every input")
-    # the branch must not be skipped for non-coinbase transactions: it is the else of `if self.is_coinbase()`
 
 
 # ------------------------------------------------------------------ C20.3
 def c20_3(ctx):
     f = ctx.func(TXIN, "TxIn.is_coinbase")
-    rets = df.returns_of(f.node)
+    w = sym.walk(ctx, f)
+    rets = [e for e in w.exits if e.kind == "return"]
     if len(rets) != 1 or rets[0].value is None:
         raise AnalysisError("TxIn.is_coinbase: expected a single return expression")
-    e = rets[0].value
-    conj = e.values if isinstance(e, ast.BoolOp) and isinstance(e.op, ast.And) else [e]
-    it = ctx.interp
-    mv = it.module(f.module.name)
-    got = {}
-    for c in conj:
-        if isinstance(c, ast.Compare) and len(c.ops) == 1 and isinstance(c.ops[0], ast.Eq):
-            for a, b in ((c.left, c.comparators[0]), (c.comparators[0], c.left)):
-                if isinstance(a, ast.Attribute) and norm(a.value) == "self":
-                    from sa.interp import Frame
-                    try:
-                        val = it.eval(b, Frame(mv, None, {}))
-                    except Exception:
-                        val = None
-                    got[a.attr] = val
-    ok = got.get("previous_hash") == b"\0" * 32 and got.get("previous_index") == 0xFFFFFFFF and len(conj) == 2
-    ctx.check(ok, "null-outpoint", ctx.where(f, rets[0]),
-              "TxIn.is_coinbase: the null outpoint must be previous_hash == 32 zero bytes AND previous_index == 0xffffffff; found constraints %r"
-              % ({k: (v.hex() if isinstance(v, bytes) else v) for k, v in got.items()},),
-              sample={"function": f.qualname, "constraints": {k: (v.hex() if isinstance(v, bytes) else v) for k, v in got.items()}})
-    # Tx.is_coinbase: exactly one input and that input is null
+    form = w.atomize(rets[0].value, True)
+    zero = repr(b"\0" * 32)
+    a_hash = ("op", " == ".join(sorted([zero, "self.previous_hash"])))
+    a_idx = ("op", " == ".join(sorted(["4294967295", "self.previous_index"])))
+    ok = gi.f_equiv(form, gi.f_and(a_hash, a_idx))
+    ctx.check(ok, "null-outpoint", ctx.where(f),
+              "TxIn.is_coinbase is true when %s; the null outpoint is previous_hash == 32 zero bytes AND previous_index == 0xffffffff" % _fmt(form), sample={"function": f.qualname, "predicate": _fmt(form)})
     f = ctx.func(TX, "Tx.is_coinbase")
-    rets = df.returns_of(f.node)
+    w = sym.int_walk(ctx, f, {"len(self.txs_in)"})
+    rets = [e for e in w.exits if e.kind == "return"]
     if len(rets) != 1 or rets[0].value is None:
         raise AnalysisError("Tx.is_coinbase: expected a single return expression")
-    at = SymbolicAtomizer(_subject({"len(self.txs_in)"}), df.const_int)
-    form = at(rets[0].value)
+    form = w.atomize(rets[0].value, True)
     s = gi.sat_set(form, U, E)
     ops = gi.f_opaques(form)
-    ctx.check(s == iv(1, 1) and any("txs_in[0].is_coinbase()" in o for o in ops), "tx-is-coinbase", ctx.where(f, rets[0]),
-              "Tx.is_coinbase: true for len(txs_in) in %s with conditions %s; property requires exactly one input which is the null outpoint" % (s.fmt(), ops),
-              sample={"function": f.qualname, "len(txs_in)": s.fmt(), "and": ops})
-    # the prevout-is-null rule of the non-coinbase branch uses the same predicate
+    ctx.check(s == iv(1, 1) and "truthy(self.txs_in[0].is_coinbase())" in ops and not _sat(gi.f_and(form, ("not", ("op", "truthy(self.txs_in[0].is_coinbase())")))), "tx-is-coinbase", ctx.where(f),
+              "Tx.is_coinbase: true for len(txs_in) in %s with conditions %s; property requires exactly one input which is the null outpoint" % (s.fmt(), ops), sample={"function": f.qualname, "len(txs_in)": s.fmt(), "and": ops})
     f = ctx.func(TX, "Tx._check_txs_in")
-    hits = []
-    for n in body_nodes(f.node):
-        if isinstance(n, ast.If):
-            for st in n.body:
-                if isinstance(st, ast.Raise) and isinstance(st.exc, ast.Call) and "null" in norm(st.exc):
-                    hits.append(n)
+    w = sym.walk(ctx, f)
+    hits = [e for e in w.exits if _is_raise_vfe(e) and e.value is not None and "null" in norm(e.value)]
     if not hits:
         ctx.bad("null-prevout-rule", ctx.where(f), "Tx._check_txs_in: no `prevout is null` rejection found for non-coinbase transactions")
-    for n in hits:
-        t = norm(n.test)
-        ok = t.endswith(".is_coinbase()") or ("previous_hash" in t and "previous_index" in t)
-        ctx.check(ok, "null-prevout-test", ctx.where(f, n),
-                  "Tx._check_txs_in: null-prevout test `%s` does not test both hash and index (a well-formed input with hash 0 and another index is rejected)" % t,
-                  sample={"test": t})
+    for e in hits:
+        g = sym.enclosing_if(f.node, e.node)
+        ops = gi.f_opaques(w.guards.get(id(g), True)) if g is not None else []
+        ok = any(o.startswith("truthy(") and o.endswith(".is_coinbase())") for o in ops) or (any("previous_hash" in o for o in ops) and any("previous_index" in o for o in ops))
+        ctx.check(ok, "null-prevout-test", ctx.where(f, e.node), "Tx._check_txs_in: the null-prevout test %s does not test both hash and index (a well-formed input with hash 0 and another index is rejected)" % ops, sample={"test": ops})
+        ctx.check(not _sat(gi.f_and(e.cond, ("op", "truthy(self.is_coinbase())"))), "null-prevout-non-coinbase", ctx.where(f, e.node), "the null-prevout rule also fires for coinbase transactions")
+
+
+def _fmt(f):
+    from sa.ct import fmt_formula
+    return fmt_formula(f)
 
 
 # ------------------------------------------------------------------ C20.4
 def c20_4(ctx):
     f = ctx.func(TX, "Tx.check")
+    w = sym.walk(ctx, f)
     want = ["_check_tx_inout_count", "_check_txs_out", "_check_txs_in", "_check_size_limit"]
-    top = []
-    for st in f.node.body:
-        if isinstance(st, ast.Expr) and isinstance(st.value, ast.Call) and isinstance(st.value.func, ast.Attribute) and norm(st.value.func.value) == "self":
-            top.append(st.value.func.attr)
-    for w in want:
-        ctx.check(w in top, "check-calls:%s" % w, ctx.where(f), "Tx.check does not call self.%s() unconditionally" % w)
-    # no early return / swallowing try in check
-    bad = [n for n in body_nodes(f.node) if isinstance(n, (ast.Return, ast.Try, ast.If))]
-    ctx.check(not bad, "check-straight-line", ctx.where(f), "Tx.check contains a branch / return / try that can skip a sub-check")
+    for name in want:
+        calls = [e for e in w.effects if e.kind == "call" and norm(e.call) == "self.%s()" % name]
+        ctx.check(any(e.reach is True and not e.loops for e in calls), "check-calls:%s" % name, ctx.where(f), "Tx.check does not call self.%s() unconditionally" % name)
+    early = [e for e in w.exits if e.kind == "return" and e.cond is not True]
+    ctx.check(not early and not any(isinstance(n, ast.Try) for n in body_nodes(f.node)), "check-straight-line", ctx.where(f), "Tx.check contains a conditional return / try that can skip a sub-check")
 
 
 # ------------------------------------------------------------------ C20.6
 def c20_6(ctx):
     f = ctx.func(TX, "Tx.bad_solution_count")
-    w = GuardWalker(lambda t: ("op", norm(t)))
-    exits = w.run(f.node.body)
-    zero = [e for e in exits if e.kind == "return" and e.value is not None and df.const_int(e.value) == 0]
-    deleg = [e for e in exits if e.kind == "return" and e.value is not None and "bad_solution_count" in norm(e.value)]
-    ok = len(zero) == 1 and zero[0].cond == ("op", "self.is_coinbase()")
-    ctx.check(ok, "coinbase-exempt", ctx.where(f), "Tx.bad_solution_count does not return 0 exactly under self.is_coinbase()",
-              sample={"exits": [(e.kind, norm(e.value) if e.value is not None else None, repr(e.cond)) for e in exits]})
-    ok2 = len(deleg) == 1 and deleg[0].cond == ("not", ("op", "self.is_coinbase()"))
-    ctx.check(ok2, "non-coinbase-delegates", ctx.where(f), "Tx.bad_solution_count does not delegate to the generic count for non-coinbase transactions")
-    # missing_unspents / missing_unspent coinbase conventions used by signing
-    base = ctx.func("pycoin/coins/Tx.py", "Tx.bad_solution_count")
+    w = sym.walk(ctx, f)
+    cb = ("op", "truthy(self.is_coinbase())")
+    zero = [e for e in w.exits if e.kind == "return" and e.value is not None and df.const_int(e.value) == 0]
+    deleg = [e for e in w.exits if e.kind == "return" and e.value is not None and ".bad_solution_count(*args, **kwargs)" in norm(e.value)]
+    ctx.check(len(zero) == 1 and gi.f_equiv(zero[0].cond, cb), "coinbase-exempt", ctx.where(f), "Tx.bad_solution_count does not return 0 exactly for coinbase transactions",
+              sample={"exits": [(e.kind, norm(e.value) if e.value is not None else None, _fmt(e.cond)) for e in w.exits]})
+    ctx.check(len(deleg) == 1 and gi.f_equiv(deleg[0].cond, gi.f_not(cb)), "non-coinbase-delegates", ctx.where(f), "Tx.bad_solution_count does not delegate to the generic count for non-coinbase transactions")
+    ctx.func("pycoin/coins/Tx.py", "Tx.bad_solution_count")
     ctx.ok("base-exists")
 
 
 OBLIGATIONS = [
     Ob("C20.1", "accepted value / total / script-length / size sets as intervals with symbolic per-coin endpoints", c20_1, floor=9,
-       engines="GI,CE", breaks_if="values 0, MAX_MONEY, MAX_MONEY+1; totals crossing MAX_MONEY on the last output; coinbase script lengths 1,2,100,101; GRS limit"),
-    Ob("C20.2", "duplicate detection keyed on the full outpoint of every input", c20_2, floor=3, engines="DF,GI",
+       engines="SYM,GI,CE", breaks_if="values 0, MAX_MONEY, MAX_MONEY+1; totals crossing MAX_MONEY on the last output; coinbase script lengths 1,2,100,101; GRS limit"),
+    Ob("C20.2", "duplicate detection keyed on the full outpoint of every input", c20_2, floor=3, engines="SYM,DF",
        breaks_if="two inputs spending the same outpoint with another output of the same tx in between"),
-    Ob("C20.3", "null outpoint = zero hash AND index 0xffffffff; coinbase = exactly one such input", c20_3, floor=3, engines="GI,CE",
+    Ob("C20.3", "null outpoint = zero hash AND index 0xffffffff; coinbase = exactly one such input", c20_3, floor=4, engines="SYM,GI",
        breaks_if="input (0^32, 5); two inputs whose first is null"),
-    Ob("C20.4", "check() runs the four sub-checks unconditionally", c20_4, floor=5, engines="CFG"),
-    Ob("C20.6", "coinbase exemption dominates the solution count", c20_6, floor=3, engines="GI"),
+    Ob("C20.4", "check() runs the four sub-checks unconditionally", c20_4, floor=5, engines="SYM"),
+    Ob("C20.6", "coinbase exemption dominates the solution count", c20_6, floor=3, engines="SYM,GI"),
 ]
